@@ -288,6 +288,67 @@ fn edge_tagged<const N: usize>(t: &Value, line: usize, rep: &mut Report) {
     finish(t, line, fails, rep);
 }
 
+/// the same for sets of plain tagged elements; every other extend goes through `impl Extend<&T>`
+fn edge_tagged_set<const N: usize>(t: &Value, line: usize, rep: &mut Report) {
+    let op = &t["o"];
+    let name = op["name"].as_str().unwrap();
+    if !matches!(name, "s_insert" | "s_replace" | "s_extend" | "s_from_iter" | "s_from_array") {
+        return;
+    }
+    let mut fails: Vec<Fail> = vec![];
+    let mut m = Cage::new(Set::<Tagged, N>::new());
+    for e in t["s"].as_array().unwrap() {
+        m.m.insert(Tagged { class: e[0].as_u64().unwrap() as u8, ver: e[1].as_u64().unwrap() as u8 });
+    }
+    let k = Tagged { class: op["k"]["c"].as_u64().unwrap_or(0) as u8, ver: op["k"]["r"].as_u64().unwrap_or(0) as u8 };
+    let items: Vec<Tagged> = op["items"]
+        .as_array()
+        .map(|a| a.iter().map(|it| Tagged { class: it["k"]["c"].as_u64().unwrap() as u8, ver: it["k"]["r"].as_u64().unwrap() as u8 }).collect())
+        .unwrap_or_default();
+    let mm = &mut m.m;
+    let mut alloc = 0u64;
+    let done = match name {
+        "s_insert" => measured(&mut alloc, || {
+            mm.insert(k);
+        }),
+        "s_replace" => measured(&mut alloc, || {
+            mm.replace(k);
+        }),
+        "s_extend" if line % 2 == 0 => measured(&mut alloc, || mm.extend(items.iter())),
+        "s_extend" => measured(&mut alloc, || mm.extend(items)),
+        "s_from_iter" => measured(&mut alloc, || {
+            *mm = items.into_iter().collect();
+        }),
+        _ => {
+            let mut it = items.into_iter();
+            let arr: [Tagged; N] = std::array::from_fn(|_| it.next().unwrap());
+            measured(&mut alloc, || {
+                *mm = Set::from(arr);
+            })
+        }
+    };
+    if !m.intact() || m.m.len() > N {
+        std::mem::forget(m);
+        finish(t, line, vec![Fail { props: "C03,C05".into(), msg: "[plain-tagged set] memory outside the container was written".into() }], rep);
+        return;
+    }
+    if done.is_some() || name == "s_extend" {
+        // (an extend that overflows keeps what it had inserted before the panic: the model's post-state says so too)
+        let mut obs: Vec<(u8, u8)> = m.m.iter().map(|k| (k.class, k.ver)).collect();
+        obs.sort();
+        let mut exp: Vec<(u8, u8)> = t["p"].as_array().unwrap().iter().map(|e| (e[1].as_u64().unwrap() as u8, e[2].as_u64().unwrap() as u8)).collect();
+        exp.sort();
+        if obs != exp {
+            let same_content = obs.iter().map(|x| x.0).collect::<Vec<_>>() == exp.iter().map(|x| x.0).collect::<Vec<_>>();
+            fails.push(Fail {
+                props: if same_content { "C12".into() } else { crate::replay::op_props(op, false, &t["r"]) },
+                msg: format!("[plain-tagged set, no drop glue] stored (class, version): observed {obs:?}, the model says {exp:?}"),
+            });
+        }
+    }
+    finish(t, line, fails, rep);
+}
+
 fn measured<R>(allocs: &mut u64, f: impl FnOnce() -> R) -> Option<R> {
     ledger::arm();
     let r = catch_unwind(AssertUnwindSafe(f));
@@ -327,7 +388,7 @@ fn supported(name: &str) -> bool {
         name,
         "insert" | "insert_key_value" | "checked_insert" | "get" | "get_key_value" | "contains_key" | "get_mut" | "index" | "index_mut" | "remove"
             | "remove_entry" | "retain" | "clear" | "from_iter" | "from_array" | "clone" | "drain" | "cursor" | "s_insert" | "s_replace" | "s_contains" | "s_get" | "s_remove"
-            | "s_take" | "s_retain" | "s_clear" | "s_extend" | "s_from_iter"
+            | "s_take" | "s_retain" | "s_clear" | "s_extend" | "s_from_iter" | "s_from_array"
     )
 }
 
@@ -760,6 +821,7 @@ pub fn run_shapes(table: &Table, set_mode: bool, rep: &mut Report) -> std::colle
             go!(SmallCopy, edge_set_sc, t, idx, n);
             go!(Heap, edge_set_h, t, idx, n);
             go!(Large, edge_set_l, t, idx, n);
+            crate::replay::with_n!(n, edge_tagged_set, t, idx, rep);
         } else {
             go!(Zst, edge_map_z, t, idx, n);
             go!(SmallCopy, edge_map_sc, t, idx, n);
